@@ -188,3 +188,89 @@ func H_C20_zip_member_order() {
 	vAssert("format-independent-of-member-order", got == sp.f)
 	vReach("end")
 }
+
+var vZipTexts map[string]string
+
+func vStubZipOpenByName(f *zip.File) (io.ReadCloser, error) { return &vRC{s: vZipTexts[f.Name]}, nil }
+
+// H_C20_zip_foreign_markers: a valid document is recognised as its own format although it carries a member that is the
+// marker of another format.
+//
+//symgo:harness prop=C20 kernel=K3b-zip-foreign-markers noreplay=1
+//symgo:redirect archive/zip.NewReader vStubZipNewReader
+//symgo:redirect (*archive/zip.File).Open vStubZipOpenByName
+//symgo:desc a valid package of one format in {DOCX, XLSX, PPTX, ODT, EPUB} (enumerated) - Office Open XML with a [Content_Types].xml that declares its main part, ODT and EPUB with their mimetype stored first - plus one foreign marker member (enumerated): META-INF/container.xml, a trailing mimetype member holding the EPUB or the ODT media type, or the main part of another Office format (word/document.xml, xl/workbook.xml, ppt/presentation.xml), stored before or after the package's own parts (enumerated; a leading mimetype stays first): detected format = the package's own format; zip central-directory parsing is cut (harness-built zip.Reader, member texts by name)
+func H_C20_zip_foreign_markers() {
+	type spec struct {
+		f       Format
+		members []string
+		texts   map[string]string
+	}
+	ct := func(kind string) string {
+		return `<?xml version="1.0"?><Types xmlns="http://schemas.openxmlformats.org/package/2006/content-types"><Default Extension="xml" ContentType="application/xml"/><Override PartName="/x" ContentType="application/vnd.openxmlformats-officedocument.` + kind + `+xml"/></Types>`
+	}
+	specs := []spec{
+		{DOCX, []string{"[Content_Types].xml", "word/document.xml"}, map[string]string{"[Content_Types].xml": ct("wordprocessingml.document.main")}},
+		{XLSX, []string{"[Content_Types].xml", "xl/workbook.xml"}, map[string]string{"[Content_Types].xml": ct("spreadsheetml.sheet.main")}},
+		{PPTX, []string{"[Content_Types].xml", "ppt/presentation.xml"}, map[string]string{"[Content_Types].xml": ct("presentationml.presentation.main")}},
+		{ODT, []string{"mimetype", "content.xml"}, map[string]string{"mimetype": "application/vnd.oasis.opendocument.text"}},
+		{EPUB, []string{"mimetype", "META-INF/container.xml"}, map[string]string{"mimetype": "application/epub+zip"}},
+	}
+	sp := specs[vAnyIntIn(0, len(specs)-1)]
+	type decoy struct{ name, text string }
+	decoys := []decoy{{"META-INF/container.xml", "<container/>"}, {"mimetype", "application/epub+zip"}, {"mimetype", "application/vnd.oasis.opendocument.text"}, {"word/document.xml", ""}, {"xl/workbook.xml", ""}, {"ppt/presentation.xml", ""}}
+	d := decoys[vAnyIntIn(0, len(decoys)-1)]
+	own := false
+	for _, m := range sp.members {
+		if m == d.name {
+			own = true
+		}
+	}
+	vAssume(!own) // the marker must be foreign to the package
+	names := append([]string{}, sp.members...)
+	if vAnyIntIn(0, 1) == 1 && sp.members[0] != "mimetype" && d.name != "mimetype" {
+		names = append([]string{d.name}, names...)
+	} else {
+		names = append(names, d.name)
+	}
+	vZipTexts = map[string]string{d.name: d.text}
+	for k, v := range sp.texts {
+		vZipTexts[k] = v
+	}
+	vZipMembers = nil
+	for _, n := range names {
+		vZipMembers = append(vZipMembers, &zip.File{FileHeader: zip.FileHeader{Name: n}})
+	}
+	got, err := detectZIPFormat(vReaderAt{nil}, 0)
+	vAssert("no-error", err == nil)
+	vAssert("own-format-despite-foreign-marker", got == sp.f)
+	vReach("end")
+}
+
+// H_C20_html_openings: the ways a valid HTML document may begin other than "<!DOCTYPE html" or "<html" at byte 0.
+//
+//symgo:harness prop=C20 kernel=K2b-html-openings
+//symgo:desc opening (enumerated): a UTF-8 byte-order mark before the doctype; a comment (and a line break) before the doctype; "<!DOCTYPE" followed by two blanks or a line break before "html"; the optional html start tag omitted ("<head>" or "<body>" first, after a doctype or alone); per-letter case of the tag names symbolic where letters are involved; followed by a short document: DetectFromMagic and DetectFromReader say HTML
+func H_C20_html_openings() {
+	h := string([]byte{vLetterCase('h'), vLetterCase('t'), vLetterCase('m'), vLetterCase('l')})
+	doc := ""
+	switch vAnyIntIn(0, 5) {
+	case 0:
+		doc = "\xef\xbb\xbf<!DOCTYPE " + h + "><" + h + "><body>x</body></html>"
+	case 1:
+		doc = "<!-- saved from url=(0014)about:internet -->\n<!DOCTYPE " + h + "><" + h + "></html>"
+	case 2:
+		doc = "<!DOCTYPE  " + h + "><" + h + "></html>"
+	case 3:
+		doc = "<!DOCTYPE\n" + h + ">\n<" + h + "></html>"
+	case 4:
+		doc = "<head><title>t</title></head><body>x</body>"
+	default:
+		doc = "<!-- c --><body><p>x</p></body>"
+	}
+	data := []byte(doc)
+	vAssert("html-by-magic", DetectFromMagic(data) == HTML)
+	r, err := DetectFromReader(vReaderAt{data}, int64(len(data)))
+	vAssert("html-by-reader", err == nil && r == HTML)
+	vReach("end")
+}
